@@ -48,3 +48,36 @@ def fill(add):
         "Product of sliced sizes <= 96 per case; numpy backend.",
         "DESIGN.md 1/C06",
     )
+
+    add(
+        "C05",
+        "exploration",
+        GEN + " with a validity-predicate oracle and a deterministic step budget for non-termination",
+        "Generated corner-case networks x every listed finder/preset/hyper method (parameters drawn from the registered search space) x entry points; oracle is a validity predicate on the returned path/tree plus a deterministic sys.monitoring step budget, so 'never returns' is detected reproducibly.",
+        "kahypar C extension loops are only caught by the wall-clock watchdog (exit 2); igraph/quickbb/flowcutter absent.",
+        "DESIGN.md 1/C05",
+    )
+    add(
+        "C10",
+        "exploration",
+        GEN + " (round-trip and reference-simulation oracles)",
+        "Generated trees, traversal orders (incl. tie-heavy callables), general/incomplete paths and edge orders; round trips must reproduce the node set computed from the drawn path itself and converters must agree with reference implementations.",
+        "Edge paths name existing labels at most once.",
+        "DESIGN.md 1/C10",
+    )
+    add(
+        "C11",
+        "exploration",
+        GEN + "; exhaustive enumeration of the 3-symbol equation space",
+        "Generated equations/shapes/axes plus (thorough) complete enumeration of all two-operand equations over 3 symbols, rank<=3, every ordered output and every shape assignment from {1,2,3}; exact comparison with an independent evaluator.",
+        "One size per label; non-negative tensordot axes.",
+        "DESIGN.md 1/C11",
+    )
+    add(
+        "C12",
+        "exploration",
+        "grammar-based property testing (Hypothesis) with numpy.einsum as differential oracle",
+        "Call forms generated from a grammar (ellipsis placement, implicit output, interleaved form, hashable labels, ncon) compared with numpy.einsum on identical arguments, or with the independent evaluator where numpy has no equivalent.",
+        "numpy.einsum is the specification for string/interleaved forms; cases numpy rejects are skipped and counted.",
+        "DESIGN.md 1/C12",
+    )
